@@ -264,4 +264,17 @@ pub open spec fn reach_at(&self, i: int, h: u64, k: nat) -> bool {
     &&& 0 <= (i - spec_pos(start, n, k)) % n < Group::WIDTH
     &&& forall|j: nat, t: int| j < k && 0 <= t < Group::WIDTH ==> #[trigger] self.win(spec_pos(start, n, j), t) != 0xFFu8
 }
+/// what erase's tombstone rule certifies when it writes EMPTY: an EMPTY byte lz + 1 buckets before
+/// `index` and another tz buckets after it, with lz + tz < WIDTH -- every probe window that contains
+/// `index` already contains one of the two
+pub open spec fn gap_witness(&self, index: int, lz: int, tz: int) -> bool {
+    &&& 0 <= lz && 1 <= tz && lz + tz < Group::WIDTH
+    &&& self.ctrl@[(index - lz - 1) % self.nb()] == 0xFFu8
+    &&& self.ctrl@[(index + tz) % self.nb()] == 0xFFu8
+}
+/// F2 for the whole table, `hs` being the hash each FULL bucket's element was stored under
+pub open spec fn f2(&self, hs: Map<int, u64>) -> bool {
+    forall|i: int| 0 <= i < self.nb() && #[trigger] self.ctrl@[i] < 0x80u8 ==>
+        hs.dom().contains(i) && self.ctrl@[i] == spec_tag(hs[i]) && self.reach(i, hs[i])
+}
 }
